@@ -37,6 +37,9 @@ def lead(txt):
 iunc, wunc = {}, {}
 
 
+ROW_KEYS = []
+
+
 def third_reader():
     """(mass of (z,a)), weights of z, composition blocks — read with nothing but split/regex."""
     imass, weight, blocks = {}, {}, []
@@ -49,8 +52,15 @@ def third_reader():
         if int(z) not in weight:
             weight[int(z)] = lead(f[3]) if f[3] else None
             wunc[int(z)] = lead_unc(f[3]) if f[3] else None
+    from periodictable import core as _core
+    sym2z = {row[1]: z for z, row in _core.element_base.items()}
     for line in mass.element_mass.split("\n"):
         t = line.split()
+        # the row is the row of the element it names: symbol column; a key column that disagrees is a mis-filed row
+        if sym2z.get(t[1]) != int(t[0]):
+            ROW_KEYS.append("row %r of the atomic-weight table is filed under Z = %s but names %s (Z = %s)" % (line.strip(), t[0], t[1], sym2z.get(t[1])))
+            if t[1] in sym2z:
+                t = [str(sym2z[t[1]])] + t[1:]
         if t[3] != "-":
             if t[3].startswith("["):
                 lo, hi = t[3][1:-1].split(",") if "," in t[3] else (t[3][1:-1], t[3][1:-1])
@@ -107,6 +117,8 @@ def direct(tname, table):
 
     def fail(sig, what, **kw):
         fails.append(dict(signature=sig, what=what, table=tname, **kw))
+    for msg in sorted(set(ROW_KEYS)):
+        fail("C06:row-key-mismatch", msg)
     listed = {}
     for z, rows in blocks:
         tot = sum(p for _, p in rows)
